@@ -35,13 +35,46 @@ Definition sweep_cfg (cfg : list N) (depth : nat) : bool :=
   | _, _ => false
   end.
 
-Lemma sweep_plain : sweep_cfg [0; 1; 1; 0; 0] 6 = true.
+Lemma sweep_plain : sweep_cfg [0; 1; 1; 0; 0] 5 = true.
 Proof. vm_compute. reflexivity. Qed.
-Lemma sweep_plain_backoff : sweep_cfg [0; 1; 2; 1; 0; 100; 200] 6 = true.
+Lemma sweep_plain_backoff : sweep_cfg [0; 1; 2; 1; 0; 100; 200] 5 = true.
 Proof. vm_compute. reflexivity. Qed.
-Lemma sweep_plain_exitgate : sweep_cfg [0; 1; 1; 1; 1; 100] 6 = true.
+Lemma sweep_plain_exitgate : sweep_cfg [0; 1; 1; 1; 1; 100] 5 = true.
 Proof. vm_compute. reflexivity. Qed.
-Lemma sweep_state : sweep_cfg [1; 1; 1; 0; 0] 6 = true.
+Lemma sweep_state : sweep_cfg [1; 1; 1; 0; 0] 5 = true.
 Proof. vm_compute. reflexivity. Qed.
-Lemma sweep_state_mod2_backoff : sweep_cfg [1; 2; 1; 1; 0; 100] 6 = true.
+Lemma sweep_state_mod2_backoff : sweep_cfg [1; 2; 1; 1; 0; 100] 5 = true.
+Proof. vm_compute. reflexivity. Qed.
+
+(* the same after fixed prefixes that reach deeper situations *)
+Fixpoint replay_prefix (h : hst) (m : mst) (evs : list (list N)) : option (hst * mst) :=
+  match evs with
+  | [] => Some (h, m)
+  | e :: r =>
+    match hstep h e with
+    | Some (h', o) => match mon (Some m) e o with (Some m', []) => replay_prefix h' m' r | _ => None end
+    | None => None
+    end
+  end.
+Definition sweep_after (cfg : list N) (prefix : list (list N)) (depth : nat) : bool :=
+  match hinit cfg, minit cfg with
+  | Some h, Some m =>
+    match replay_prefix h m prefix with
+    | Some (h', m') => sweep (alphabet (match cfg with v :: _ => nz v | [] => false end)) depth h' m'
+    | None => false
+    end
+  | _, _ => false
+  end.
+
+(* an errored routine with its retry timer fired and parked, then restarted: the stale-callback situation of D20 *)
+Lemma sweep_after_error_and_fired_timer :
+  sweep_after [0; 1; 1; 1; 0; 100; 100] [[1; 1; 0]; [2; 1]; [8; 0; 1]; [9; 0; 2]; [10; 0]; [11; 100]; [3]] 4 = true.
+Proof. vm_compute. reflexivity. Qed.
+(* three chained instances, the first still in user code *)
+Lemma sweep_after_chain_of_three :
+  sweep_after [0; 1; 1; 0; 0] [[1; 1; 0]; [2; 1]; [8; 0; 1]; [3]; [8; 1; 0]; [3]] 4 = true.
+Proof. vm_compute. reflexivity. Qed.
+(* state container with a running instance and a blocked WaitExited caller *)
+Lemma sweep_after_state_running :
+  sweep_after [1; 1; 1; 1; 0; 100] [[1; 1; 0]; [6; 1]; [4; 1]; [8; 0; 1]; [13; 0]; [14; 0]] 4 = true.
 Proof. vm_compute. reflexivity. Qed.
